@@ -752,7 +752,29 @@ func runC12(c *ctx) {
 			}
 		}
 	}
-	c.Required = []string{"num/in-domain", "num/out-of-domain", "num/int-into-float", "float/non-finite", "float/overflow", "float/in-range", "binstr/valid", "binstr/invalid", "ascii/non-ascii-unicode", "ascii/invalid-utf8", "varname/valid", "varname/invalid", "varname/ellipsis", "msg/NewDataMessage", "msg/NewHSMSDataMessage", "msg/SetSessionID"}
+	// one header parameter at a time over values that are far out of range but alias a valid value modulo 2^8, 2^16,
+	// 2^32 (a narrower field type must not turn them into valid ones), the others valid
+	{
+		var wide []int
+		for _, base := range []int{-1, 0, 1, 5, 127, 128, 255, 256, 65535, 65536} {
+			for _, m := range []int{1 << 8, 1 << 16, 1 << 31, 1 << 32, 1 << 33, 1 << 48, -(1 << 8), -(1 << 16), -(1 << 32), 1 << 62} {
+				wide = append(wide, base+m)
+			}
+		}
+		wide = append(wide, math.MaxInt64, math.MinInt64, math.MaxInt32, math.MinInt32, math.MaxInt32+1, math.MaxUint32, math.MaxUint32+1, math.MinInt64+1, math.MaxInt64-65535)
+		for _, v := range wide {
+			for pos := 0; pos < 4; pos++ {
+				ints := []int{1, 1, 1, 7}
+				ints[pos] = v
+				c.Class("msg/far-out-of-range-parameter")
+				c12Eval(c, c12Case{Op: "msg", Ints: ints, Str: "n", Where: "H->E"})
+				ints2 := []int{6, 12, 0, 65535}
+				ints2[pos] = v
+				c12Eval(c, c12Case{Op: "msg", Ints: ints2, Str: "", Where: "H<-E"})
+			}
+		}
+	}
+	c.Required = []string{"msg/far-out-of-range-parameter", "num/in-domain", "num/out-of-domain", "num/int-into-float", "float/non-finite", "float/overflow", "float/in-range", "binstr/valid", "binstr/invalid", "ascii/non-ascii-unicode", "ascii/invalid-utf8", "varname/valid", "varname/invalid", "varname/ellipsis", "msg/NewDataMessage", "msg/NewHSMSDataMessage", "msg/SetSessionID"}
 }
 
 func replayC12(c *ctx, raw json.RawMessage) {
